@@ -84,8 +84,8 @@ class Ctx:
     def ensure_static(self):
         """the static Coq library must be built (setup_cmd does it); build on demand otherwise"""
         mk = os.path.join(COQ_STATIC, 'Makefile')
-        rc, out = sh(f'cd {COQ_STATIC} && coq_makefile -f _CoqProject -o Makefile > /dev/null && '
-                     f'timeout 3000 make -j{NCPU} 2>&1 | tail -30', timeout=3100)
+        rc, out = sh(f'sh {VERIF}/tools/mkcoqproject.sh && cd {COQ_STATIC} && '
+                     f'timeout 3000 make -k -j{NCPU} 2>&1 | tail -30', timeout=3100)
         if rc != 0 or 'Error' in out:
             self.note('static Coq library failed to build:\n' + out)
             return False
@@ -317,6 +317,17 @@ class Ctx:
         return 1 if unknown else 0
 
 
+def static_stale():
+    for root, _, files in os.walk(COQ_STATIC):
+        for f in files:
+            if f.endswith('.v'):
+                v = os.path.join(root, f)
+                vo = v + 'o'
+                if not os.path.exists(vo) or os.path.getmtime(vo) < os.path.getmtime(v):
+                    return True
+    return False
+
+
 def strip_comments(txt):
     out, depth, i = [], 0, 0
     while i < len(txt):
@@ -423,8 +434,13 @@ def main(argv):
         obj = json.load(open(a.replay))
         return mod.replay(ctx, obj)
     ctx.prepare_build()
-    if not os.path.exists(os.path.join(COQ_STATIC, 'Sem', 'Val.vo')) or os.environ.get('VERIF_REBUILD_STATIC'):
-        ctx.ensure_static()
+    if static_stale() or os.environ.get('VERIF_REBUILD_STATIC'):
+        import fcntl
+        os.makedirs(os.path.join(VERIF, 'build'), exist_ok=True)
+        with open(os.path.join(VERIF, 'build', '.static.lock'), 'w') as lk:
+            fcntl.flock(lk, fcntl.LOCK_EX)
+            if static_stale():
+                ctx.ensure_static()
     ok = ctx.translate()
     ok = ctx.compile_run_files() and ok
     try:
